@@ -16,7 +16,7 @@ func init() {
 					}
 				}
 				if tier == "thorough" {
-					for _, o1 := range []int64{0, 4, 6, 7} {
+					for o1 := int64(0); o1 < 12; o1++ {
 						for o2 := int64(0); o2 < 12; o2++ {
 							cs = append(cs, mkCase("", "c05", "HInv2", cfg, kind, 2, o1, o2))
 						}
@@ -28,7 +28,7 @@ func init() {
 		Reach:       []string{"inv"},
 		Explanation: "Bounded symbolic execution of the namespace calls of MemFS and OrefaFS with operands biased to aliasing (the root, a directory and its descendant, identical operands, missing names, a name below a regular file) and symbolic scalars, from three seed trees; before and after every call the invariants are asserted through the public API only (no model): I1 the walk from the root terminates (node budget); I2 listings are sorted and duplicate-free and a name is listed iff Lstat succeeds; I3 the link count of every regular file equals the number of walked paths that are SameFile with it, and those paths agree on content, size, mode and owner; I4 a failed call (RemoveAll excepted) leaves every entry as it was; I5 a successful call changes only entries it names (or entries below them, or other names of the same file).",
 		Bounds: func(tier string) map[string]any {
-			return map[string]any{"history_length": map[string]string{"quick": "1", "thorough": "1, and 2 from seed S2 with a successful first call in {Mkdir, Remove, Rename, Link} over all operands (fixed scalars); a failed first call leaves the tree unchanged (asserted) and is covered by length 1"}[tier], "seed_trees": "S1..S3", "operands": 9, "outside": "longer histories, Windows-typed instances (C17 compares them with Linux-typed ones), concurrent executions (C06 compares with sequential orders)"}
+			return map[string]any{"history_length": map[string]string{"quick": "1", "thorough": "1, and 2 from seed S2 with a successful first call (any of the 12 templates) over all operands (fixed scalars); a failed first call leaves the tree unchanged (asserted) and is covered by length 1"}[tier], "seed_trees": "S1..S3", "operands": 9, "outside": "longer histories, Windows-typed instances (C17 compares them with Linux-typed ones), concurrent executions (C06 compares with sequential orders)"}
 		},
 	})
 }
